@@ -57,3 +57,12 @@ func init() {
 		NotCovered:  "that every edge is listed in every index cell it meets (clipping arithmetic); numeric behaviour of the crossing tests.",
 	}
 }
+
+func init() {
+	Properties["C08"] = PropertySpec{
+		Rules: []string{"R-CYCLE", "R-SETUSE", "R-POLARITY", "R-QUERYFLOW", "R-SCRATCH", "R-OPTS"},
+		Explanation: "Optimized closest/furthest edge search equals brute force, reduced to the structural conditions the algorithm depends on: enumeration loops really enumerate, the duplicate set is fed and consulted " +
+			"with the right polarity, min- and max-distance families do not mix, results are post-processed on every path, the queue key is conservative exactly when an error is permitted, and per-call state/options do not leak between calls.",
+		NotCovered: "that Cell.Distance*/MaxDistance* are true bounds (numeric), optimality of the returned set on concrete data.",
+	}
+}
